@@ -22,13 +22,16 @@ the observed suggestions (or, for the benchmark path, the trial sequence).
       int != float) inside one process and, across processes, bit-equal for
       the numpy designers and within rtol=1e-12 for the jit-compiled ones
       (cmaes, gp_bandit, gp_ucb_pe) - the tolerance stated in the design.
-  R2  the seed is used: K pairwise different seeds (K=6; K=3 for the GP
-      designers because one GP run costs 5-25 s) in the SAME environment with
-      the same problem and feedback give observations that are not all
-      identical.  Judged only on spaces where K coinciding streams have
-      probability < 1e-9 by construction (a DOUBLE parameter of non-zero
-      width; for the shuffled grid additionally a stream of min(G,256)
-      suggestions, which reveals >= 64 equally likely orderings).
+  R2  the seed is used: K=6 pairwise different seeds in the SAME environment
+      with the same problem and feedback give observations that are not all
+      identical.  Judged only on streams of >= 8 suggestions on spaces where
+      K coinciding streams have probability < 1e-9 by construction (a DOUBLE
+      parameter of non-zero width; for the shuffled grid additionally a
+      stream of min(G,256) suggestions, which reveals >= 64 equally likely
+      orderings).  GP designers: judged on the stream that starts from an
+      empty history (seeding phase: quasi-random points drawn from the rng),
+      not on the model-based call alone (a clipped optimum on the boundary
+      may legitimately coincide for all seeds).
   R3  R1 for `BenchmarkStateFactory(seed)` + `BenchmarkRunner` (trial ids,
       status, parameters, final measurements of all trials) on Branin / BBOB
       (optionally discretised / categorised / shifted / noisy with a noise
@@ -94,7 +97,6 @@ ASSUMPTIONS = [
 MODEL_BASED = ('eagle', 'nsga2', 'cmaes') + lib.GP
 HAS_FROM_PROBLEM = ('random', 'quasi', 'grid', 'gp_bandit')
 K_SEEDS = 6
-K_SEEDS_GP = 3
 XPROC_TIMEOUT = 1500
 
 
@@ -105,6 +107,16 @@ def _mix(percent):
   """Boolean, True with the given probability (no boundary bias)."""
   return st.integers(0, 2 ** 32 - 1).map(
       lambda x: (((x + 12345) * 2654435761 % 2 ** 32) >> 8) % 100 < percent)
+
+
+def _not_simplest():
+  """Makes Hypothesis' all-simplest first example of a shard invalid.
+
+  Every shard starts with the example in which every draw takes its simplest
+  value - the same case in every shard.  Families with 1-2 examples per
+  shard (one fresh interpreter or one GP run per example) would spend half
+  of their budget on it."""
+  return st.integers(0, 7).filter(bool)
 
 
 def _designer(designers):
@@ -399,6 +411,7 @@ def bench_strategy(draw):
 
 @st.composite
 def xproc_strategy(draw):
+  draw(_not_simplest())
   n = draw(st.integers(4, 9))
   items = []
   for _ in range(n):
@@ -412,13 +425,15 @@ def xproc_strategy(draw):
 
 # ----------------------------------------------------------------------- GP
 @st.composite
-def gp_run(draw, max_params=3):
-  designer = draw(st.sampled_from(list(lib.GP)))
+def gp_run(draw, max_params=3, designer=None):
+  designer = designer or draw(_designer(lib.GP))
   spec = draw(_space(designer, need_double=True, max_params=max_params))
   metrics = [['m0', draw(st.sampled_from(['MAXIMIZE', 'MINIMIZE']))]]
   # one model-based suggest call (every further call with a new number of
   # trials re-compiles the jitted GP code: 5-10 s each)
-  count = draw(st.integers(1, 3 if designer == 'gp_bandit' else 2))
+  # (gp_ucb_pe optimises one acquisition per suggestion: count=2 costs 17 s)
+  count = draw(st.integers(1, 3)) if designer == 'gp_bandit' else (
+      2 if draw(_mix(25)) else 1)
   opts = {'max_evaluations': draw(st.sampled_from([100, 250, 500])),
           'suggestion_batch_size': draw(st.sampled_from([10, 25])),
           'ard_maxiter': draw(st.sampled_from([2, 5]))}
@@ -432,16 +447,20 @@ def gp_run(draw, max_params=3):
 
 @st.composite
 def gp_strategy(draw):
+  draw(_not_simplest())
   run = draw(gp_run())
-  seeds = draw(_seeds(K_SEEDS_GP))
+  seeds = draw(_seeds(K_SEEDS))
   run['seed'] = seeds[0]
   return {'run': run, 'seeds': seeds, 'envs': draw(envs(run['designer']))}
 
 
 @st.composite
 def gp_xproc_strategy(draw):
+  draw(_not_simplest())
   return {'hashseed': draw(st.integers(1, 2 ** 32 - 1)),
-          'items': [{'kind': 'stream', 'run': draw(gp_run(max_params=2))}],
+          'items': [{'kind': 'stream',
+                     'run': draw(gp_run(max_params=2, designer=d))}
+                    for d in lib.GP],
           'envs': draw(envs())}
 
 
@@ -663,19 +682,19 @@ def check_gp(case):
   run = case['run']
   item = {'kind': 'stream', 'run': run}
   nt = _stream_classes(out, run)
-  first = _pairs(out, 'R1', item, case['envs'], pairs=('perturbed_globals',))
+  first = _pairs(out, 'R1', item, case['envs'])
   if not first.get('error'):
     out.cls('model_based_suggest_answered')
-  _r2(out, 'R2/seed_ignored', item, case['seeds'], case['envs']['a'],
-      first=first)
-  # the seeding phase (no history): centre + quasi-random from the rng
-  seed_run = dict(run, prior=[], steps=[{'count': 8, 'fb': []}])
+  # R1 + R2 on the stream that starts from scratch: 9 suggestions of the
+  # seeding phase (centre + quasi-random points drawn from the rng; no GP
+  # fit, cheap).  R2 is NOT judged on the model-based call: with an optimum
+  # on the boundary of the space all seeds may legitimately return the same
+  # clipped point.
+  seed_run = dict(run, prior=[], steps=[{'count': 9, 'fb': []}])
   seed_item = {'kind': 'stream', 'run': seed_run}
   sfirst = _pairs(out, 'R1_seed_phase', seed_item, case['envs'])
-  more = [s for s in range(K_SEEDS + len(case['seeds']))
-          if s not in case['seeds']][:K_SEEDS - len(case['seeds'])]
-  _r2(out, 'R2/seed_ignored_in_seed_phase', seed_item,
-      list(case['seeds']) + more, case['envs']['a'], first=sfirst)
+  _r2(out, 'R2/seed_ignored', seed_item, case['seeds'], case['envs']['a'],
+      first=sfirst)
   out.nontrivial = nt and not first.get('error')
   return out
 
@@ -686,20 +705,22 @@ def check_gp_xproc(case):
 
 def families(tier):
   return [
+      # one example per shard in the expensive families: see _not_simplest
       core.Family('gp', check_gp, strategy=gp_strategy,
-                  budget={'quick': 8, 'thorough': 64},
-                  shards={'quick': 8, 'thorough': 16},
+                  budget={'quick': 8, 'thorough': 48},
+                  shards={'quick': 8, 'thorough': 48},
                   required_classes=('gp_bandit', 'gp_ucb_pe',
                                     'model_based_suggest_answered',
                                     'r2_judged'),
                   max_shrink_s={'quick': 120, 'thorough': 300}),
       core.Family('gp_xproc', check_gp_xproc, strategy=gp_xproc_strategy,
-                  budget={'quick': 2, 'thorough': 16},
+                  budget={'quick': 2, 'thorough': 8},
                   shards={'quick': 2, 'thorough': 8},
+                  required_classes=('gp_bandit', 'gp_ucb_pe'),
                   max_shrink_s={'quick': 120, 'thorough': 300}),
       core.Family('xproc', check_xproc, strategy=xproc_strategy,
                   budget={'quick': 16, 'thorough': 240},
-                  shards={'quick': 8, 'thorough': 16},
+                  shards={'quick': 16, 'thorough': 16},
                   required_classes=lib.CHEAP + (
                       'item_stream', 'item_bench',
                       'two_or_more_parameter_names'),
@@ -714,7 +735,7 @@ def families(tier):
                       'cmaes_generation_update')),
       core.Family('seeds', check_seeds, strategy=seeds_strategy,
                   budget={'quick': 400, 'thorough': 8000},
-                  shards={'quick': 4, 'thorough': 16},
+                  shards={'quick': 8, 'thorough': 16},
                   required_classes=lib.CHEAP + ('r2_judged',
                                                 'seed_0_among_seeds')),
       core.Family('bench', check_bench, strategy=bench_strategy,
